@@ -15,6 +15,8 @@ for d in sorted(glob.glob('/verif/seeded/*')):
         c = 'other:' + ','.join(also)
     if c == 'MISSED' and n in oor:
         c = 'out-of-reach'
+    if c == 'MISSED' and n in (json.load(open('/verif/seeded/not_addressed.json')) if os.path.exists('/verif/seeded/not_addressed.json') else {}):
+        c = 'not-addressed'
     conf = m.get('confirmed', {})
     ok = all(conf.get(k) for k in ('existing_suites_pass_with_patch', 'demo_fails_with_patch', 'demo_passes_without_patch'))
     rows.append((n, m['breaks_property'], bool(ok), c))
